@@ -36,6 +36,10 @@ CHECKS = {
    text="seeded captures are written by the real pcap (us/ns) and pcapng writers into a simulated file; the round trip is checked through a chunked simulated stream with the copying and zero-copy calls (and by libpcap for a seeded subset), and then the crash space is enumerated: the file is cut at every byte offset (exhaustive for files up to 2 KiB; all write boundaries +-2 plus a seeded sample beyond) and the reader must return exactly the wholly contained packets and then an EOF-class error. Exhaustive over cut positions per file; the files are seeded samples.",
    note="trusted: harness packet generator and comparison; block boundaries are taken from the simulated file's length after each flushed packet; libpcap is a second reader for single-link-type files only",
    tech="deterministic simulation of file and stream with crash-point enumeration (cut at every byte) and short-read injection"),
+ "C15": dict(cat="exploration", engine="sim-disk", ref="4 C15",
+   text="seeded structurally valid pcap / pcapng / snoop inputs (harness-built, both byte orders, every field a named mutation target) with boundary-value field corruptions, random tails, truncations and gzip wrapping are read through fault-free, chunked and failing simulated streams with the copying and zero-copy calls; oracles: no panic, no spin at EOF, allocation per call in proportion to bytes present plus declared snap length, data length == capture length <= length, results independent of chunking, prefix property and surfacing of an injected read error. The thorough tier sweeps every error offset for inputs up to 512 bytes.",
+   note="trusted: harness file builders and oracles; allocation measured with runtime/metrics and confirmed with runtime.ReadMemStats before it is reported; CPU-bound infinite loops that never touch the stream are only caught by the parent watchdog (exit 2)",
+   tech="deterministic simulation of the byte stream with short-read, data+EOF and read-error injection over seeded structure-aware corruptions"),
 }
 
 def main():
